@@ -224,7 +224,10 @@ def _unique_name(params: Any) -> str:
     if all_scalar:
         # Format: `pname1=pval1 pname2=pval2 pname3=pval3`
         keys = params.__params__.keys()
-        name = " ".join(f"{k}={str(getattr(params, k))}" for k in keys)
+        # Strings are written as quoted literals: bare, `a="x b=y"` and `a="x", b="y"` would both read `a=x b=y`,
+        # and the string "None" would read like the value `None`.
+        fmt = lambda v: repr(v) if isinstance(v, str) else str(v)
+        name = " ".join(f"{k}={fmt(getattr(params, k))}" for k in keys)
 
         # These names must also be limited in length, for sake of our favorite output formats.
         # If the generated name is too long, use the hashing method below instead
